@@ -513,9 +513,56 @@ Fixpoint check_trace (which : N) (cfg : pcfg) (i : N) (ps : pstate) (tr : trace)
 Definition P_hub (which : N) (c : hcase) : option (N * N) :=
   check_trace which (mkpcfg c.(k_limits) (negb (N.eqb c.(k_mode) 2))) 0 ps_init c.(k_trace).
 
-(* judge of a property's cases: model = implementation?  predicate on the implementation's trace? *)
+(* ---- the same clauses judged against the state the specification prescribes ----
+   Once the implementation's tables differ from the model's, the clauses above (which read
+   "permissions as last set", "currently in the call", "member of the room" from the implementation's
+   own tables) no longer judge the property but the implementation's consistency with itself.  The
+   model is proved to satisfy the property and agreed with the implementation up to the first
+   difference, so its state is the state the property prescribes: the implementation's observations
+   are judged against it.  Only evaluated for cases in which model and implementation differ. *)
+Definition hold_ok (md dg : digest) : bool :=
+  forallb (fun x => is_virtual_d x ||
+     match find_sd md x.(d_sid) with
+     | Some y => (negb (N.testbit x.(d_pubs) 2) || perm_d y 2) &&
+                 (negb (N.testbit x.(d_pubs) 1 || N.testbit x.(d_pubs) 0) || perm_d y 3 || perm_d y 0 || perm_d y 1)
+     | None => true end) dg.(g_sessions).
+
+Definition check_step_spec (which : N) (cfg : pcfg) (last : bool) (ps : pstate) (md md' : digest) (o : op) (ob : obs) (dg : digest) : N :=
+  let ps' := mkps md ps.(ps_view) ps.(ps_queue) in
+  match check_step which cfg last ps' o ob dg with
+  | 0 => match which with
+         | 4 => if (cfg.(pc_quiescent) || last) && negb (observers_ok md' (update_views md dg ob ps.(ps_view))) then 12 else 0
+         | 8 => if hold_ok md' dg then 0 else 13
+         | _ => 0 end
+  | n => n
+  end.
+
+Fixpoint check_trace_spec (which : N) (cfg : pcfg) (mode i : N) (ps : pstate) (h : hub) (tr : trace) : option (N * N) :=
+  match tr with
+  | [] => None
+  | (o, ob, dg) :: r =>
+      let '(h', _) := sem_step mode h o in
+      match check_step_spec which cfg (match r with [] => true | _ => false end) ps (digest_of h) (digest_of h') o ob dg with
+      | 0 => check_trace_spec which cfg mode (i + 1) (ps_next ps o ob dg) h' r
+      | clause => Some (i, clause)
+      end
+  end.
+
+Definition P_hub_spec (which : N) (c : hcase) : option (N * N) :=
+  check_trace_spec which (mkpcfg c.(k_limits) (negb (N.eqb c.(k_mode) 2))) c.(k_mode) 0 ps_init
+                   (init c.(k_limits) c.(k_gated)) c.(k_trace).
+
+(* judge of a property's cases: model = implementation?  predicate on the implementation's trace?
+   and, where they differ, predicate on the implementation's trace against the prescribed state? *)
 Definition judge_hub (which : N) (cs : list hcase) : list (N * N * N) :=
-  flat_map (fun c => compare_case c ++
+  flat_map (fun c => let d := compare_case c in
+                     d ++
                      match P_hub which c with
                      | Some (i, clause) => [(c.(k_id), 2, i * 1000 + clause)]
-                     | None => [] end) cs.
+                     | None => match d with
+                               | [] => []
+                               | _ => match P_hub_spec which c with
+                                      | Some (i, clause) => [(c.(k_id), 4, i * 1000 + clause)]
+                                      | None => [] end
+                               end
+                     end) cs.
